@@ -5,20 +5,34 @@ wt="$1"; sd="$2"
 export GOFLAGS=-mod=mod GOPROXY=off
 cd "$wt" || exit 9
 git checkout -q -- . && git clean -fdq -e seedout
-demo_path=$(python3 -c "import json;print(json.load(open('$sd/meta.json'))['demo_path'])")
 demo_cmd=$(python3 -c "import json;print(json.load(open('$sd/meta.json'))['demo_cmd'])")
 log="$sd/confirm.log"; : > "$log"
 copy_demo() {
-  # demo_path may be a file path or a directory; copy all *_test.go / *.go demo files from seed dir
-  for f in "$sd"/*.go; do
-    [ -f "$f" ] || continue
-    case "$demo_path" in
-      *.go) mkdir -p "$(dirname "$demo_path")"; cp "$f" "$(dirname "$demo_path")/$(basename "$f")";;
-      *) mkdir -p "$demo_path"; cp "$f" "$demo_path/";;
-    esac
-  done
+  python3 - "$sd" <<'PY'
+import json, sys, os, glob, shutil
+sd = sys.argv[1]
+m = json.load(open(os.path.join(sd, "meta.json")))
+if "cp seedout" in m["demo_cmd"]:
+    sys.exit(0)          # the demo command places the file itself
+paths = m["demo_path"] if isinstance(m["demo_path"], list) else [m["demo_path"]]
+files = sorted(glob.glob(os.path.join(sd, "*.go")))
+if len(paths) == 1 and len(files) == 1 and paths[0].endswith(".go"):
+    os.makedirs(os.path.dirname(paths[0]) or ".", exist_ok=True)
+    shutil.copy(files[0], paths[0])
+else:
+    for f in files:
+        dst = None
+        for p in paths:
+            if os.path.basename(p) == os.path.basename(f):
+                dst = p
+        if dst is None:
+            d = paths[0] if not paths[0].endswith(".go") else os.path.dirname(paths[0])
+            dst = os.path.join(d, os.path.basename(f))
+        os.makedirs(os.path.dirname(dst) or ".", exist_ok=True)
+        shutil.copy(f, dst)
+PY
 }
-rm_demo() { git clean -fdq -e seedout; }
+rm_demo() { git clean -fdq -e seedout; rm -rf ui/app/dist; }
 echo "== demo without patch (expect pass)" >> "$log"
 copy_demo
 if sh -c "$demo_cmd" >> "$log" 2>&1; then r_nopatch=pass; else r_nopatch=FAIL; fi
